@@ -5,6 +5,7 @@ import (
 	"encoding/json"
 	"fmt"
 	"github.com/tobgu/qframe/config/groupby"
+	"io"
 	"math"
 	"strings"
 	"testing"
@@ -201,6 +202,23 @@ func propC14(t *rapid.T) {
 		if rapid.IntRange(0, 3).Draw(t, "secondcall") == 0 && len(d.Siblings) > 0 {
 			// another frame was written just before (whatever the writer keeps between calls must not show)
 			_ = hx.Safely(func() { _ = d.Siblings[0].ToJSON(&bytes.Buffer{}); _ = d.QF.ToJSON(&bytes.Buffer{}) })
+		}
+		if len(in.Cols) > 0 && in.N() > 0 && rapid.IntRange(0, 3).Draw(t, "relativesfirst") == 0 {
+			// relatives of the frame are written first: a part of its rows, that part grouped by one of its columns (the
+			// key column of the result is cut out of the frame's column), one row per value - what was learnt about
+			// their cells says nothing about the cells of the frame itself
+			kc := in.Cols[rapid.IntRange(0, len(in.Cols)-1).Draw(t, "relkey")].Name
+			keepRows := rapid.SliceOfN(rapid.IntRange(0, in.N()-1), 1, 3).Draw(t, "relrows")
+			_ = hx.Safely(func() {
+				part := d.QF
+				for i, r := range keepRows {
+					_ = i
+					part = d.QF.Slice(r, r+1)
+					_ = part.GroupBy(groupby.Columns(kc)).Aggregate().ToJSON(io.Discard)
+					_ = part.ToJSON(io.Discard)
+				}
+				_ = d.QF.Distinct(groupby.Columns(kc)).ToJSON(io.Discard)
+			})
 		}
 		if perr := hx.Safely(func() { werr = d.QF.ToJSON(&buf) }); perr != nil {
 			t.Fatalf("ToJSON panicked: %v\n%s", perr, desc())
